@@ -1,11 +1,11 @@
 SPECIFICATION Spec
 CONSTANTS Kind = "L"
-          T = 5
+          T = 4
           NL = 2
           NS = 2
           Labels = {"a", "b", "A"}
           Windows = {0}
-          FS = {1, 2}
+          FS = {1}
 INVARIANT InRange
 INVARIANT SelfPerfect
 INVARIANT Export
